@@ -194,6 +194,8 @@ pub fn run_case(c: &Case, r: &mut Report, prop: &str) {
             obj.insert("Nbf".into(), json!("2999-01-01T00:00:00Z"));
             obj.insert("\"nbf\":".into(), json!("\"exp\":"));
         }
+        // 5..=7: the SAME members, spelled differently in the JSON text (see below)
+        5..=7 => {}
         _ => {
             for i in 0..120 {
                 obj.insert(format!("claim-{:03}", i), json!({"i": i, "s": "x".repeat(i % 17)}));
@@ -203,7 +205,36 @@ pub fn run_case(c: &Case, r: &mut Report, prop: &str) {
             obj.insert("iat".into(), json!("2999-01-01T00:00:00Z"));
         }
     }
-    let payload = Value::Object(obj).to_string();
+    let original = Value::Object(obj);
+    let mut payload = original.to_string();
+    // another implementation's spelling of the very same JSON value: escapes in member names (5), escapes inside the string
+    // values (6), insignificant white space (7).  The claims are what they were; so is the verdict.
+    match c.surround {
+        5 => {
+            payload = payload.replacen("\"exp\":", "\"\\u0065xp\":", 1).replacen("\"nbf\":", "\"nb\\u0066\":", 1);
+        }
+        6 => {
+            for v in [&ev, &nv] {
+                if let Some(Value::String(s)) = v {
+                    let plain = Value::String(s.clone()).to_string();
+                    let esc: String = s.chars().enumerate().map(|(i, ch)| if ch.is_ascii() && !ch.is_ascii_control() && ch != '"' && ch != '\\' && (i % 3 == 0 || "T+:Z".contains(ch)) { format!("\\u{:04x}", ch as u32) } else { Value::String(ch.to_string()).to_string().trim_matches('"').to_string() }).collect();
+                    payload = payload.replacen(&plain, &format!("\"{}\"", esc), 1);
+                }
+            }
+        }
+        7 => {
+            payload = serde_json::to_string_pretty(&serde_json::from_str::<Value>(&payload).unwrap_or(Value::Null)).unwrap_or(payload.clone()).replace(": ", " :\t");
+        }
+        _ => {}
+    }
+    if (5..=7).contains(&c.surround) {
+        // harness self-check: the re-spelled text must denote the very same JSON value
+        if serde_json::from_str::<Value>(&payload).ok().as_ref() != Some(&original) {
+            r.inconclusive.push(format!("harness: re-spelled payload is not the same JSON value: {}", util::clip(&payload, 200)));
+            return;
+        }
+        r.count(&format!("payload spelling {} presented", c.surround));
+    }
     let expect = match (ee, ne) {
         (Expect::Reject, _) | (_, Expect::Reject) => Expect::Reject,
         (Expect::Either, _) | (_, Expect::Either) => Expect::Either,
@@ -530,6 +561,20 @@ pub fn build_cases(prop: &str, tier: &str, seed: u64, pools: &Pools) -> Vec<Case
         })
         .collect();
     cases.extend(extra3);
+    // every 29th case once more with the payload SPELLED as another implementation might (escaped member names, escaped
+    // characters inside the values, insignificant white space): same JSON value, same verdict
+    let extra4: Vec<Case> = cases
+        .iter()
+        .enumerate()
+        .filter(|(i, c)| i % 29 == 11 && c.surround == 0)
+        .map(|(i, c)| {
+            let mut d = c.clone();
+            d.surround = 5 + ((i / 29) % 3) as u8;
+            d.class = format!("{}+spelling{}", c.class, d.surround);
+            d
+        })
+        .collect();
+    cases.extend(extra4);
     cases
 }
 
@@ -812,4 +857,4 @@ pub fn replay(prop: &str, case: &Value) -> Report {
     r
 }
 
-pub const RULE: &str = "payloads {\"exp\"|\"nbf\": value} are crafted at the core layer and parsed with PasetoParser::default(). Values: 21 instants (now-2s, -1min, -1h, -1d, -1y, 2000-01-01, 1971; now+60s, +1h, +1d, +1y, 2999, 9000-01-01, and now + {2^31, 2^32 seconds, 2^63 ns -/+ 1 min, 475 y, 2^64 ns, 3170 y}; plus the edges of the four-digit-year range: 0000-01-01, 0000-12-31, 0001-01-01 and instants at / just beyond 9999-12-31T23:59:59Z rendered with the (negative) offsets that keep the local year at 9999) rendered by the harness's own calendar arithmetic with EVERY UTC offset -23:59..+23:59 x 0..9 fractional digits (strict grammar; plus fractions of 10..40 digits on a sample of offsets), 'Z', '-00:00' and lenient variants (space / 't' separators and 'z', each also combined with 'Z') — full space on v4.local (thorough: all four local protocols and v2/v4 public), 500 (thorough 60000) sampled renderings on each other protocol; a catalogue of ~90 non-timestamp values (numbers, booleans, arrays, objects, empty string, near-miss date strings — impossible months/days/hours, ISO 8601 forms that RFC 3339 excludes — each in the future (2999) and in the past (2001)) plus random text; null; absent; a sample of the strict cases and the grid once more with check_claim(<the token's own value>) registered on the default parser, and every 61st case of any class with check_claim on ANOTHER claim that the token satisfies (the time checks must still all apply); C12 additionally the 3x3 grid of (exp, nbf) in {past, future, absent} x 3 offsets. Plus a VIRTUAL-CLOCK sweep through the hook verif::set_now: 255 (thorough 3055) values of 'now' (year/leap-day boundaries, the last and first second of a minute / hour / day / month / year, 2^31/2^32 s, the i64-nanosecond limit 2262-04-11, up to year 8999, random, odd sub-second parts) x 27 distances from +-1 ns to +-950 years x sampled offsets, all with 9 fraction digits: exp accepted iff instant > now, nbf accepted iff instant < now (== now not decided). Plus clock-progress histories on all 8 protocols: a claim 1.5 s in the future is parsed, 2.6 s pass, and the SAME parser object (and a fresh one) must now give the opposite answer — also when the last parse before the pause was a REFUSED one (a clock reading kept from a failing parse must not judge the next). Oracle: instant known by construction; strict renderings and renderings with a ' ' separator (named in the property's quantifier) decide both ways, the other lenient renderings ('t', 'z') must merely never be accepted when out of window. distinct_nontrivial = distinct (protocol, outcome, class, instant, offset, fraction length, style) tuples";
+pub const RULE: &str = "payloads {\"exp\"|\"nbf\": value} are crafted at the core layer and parsed with PasetoParser::default(). Values: 21 instants (now-2s, -1min, -1h, -1d, -1y, 2000-01-01, 1971; now+60s, +1h, +1d, +1y, 2999, 9000-01-01, and now + {2^31, 2^32 seconds, 2^63 ns -/+ 1 min, 475 y, 2^64 ns, 3170 y}; plus the edges of the four-digit-year range: 0000-01-01, 0000-12-31, 0001-01-01 and instants at / just beyond 9999-12-31T23:59:59Z rendered with the (negative) offsets that keep the local year at 9999) rendered by the harness's own calendar arithmetic with EVERY UTC offset -23:59..+23:59 x 0..9 fractional digits (strict grammar; plus fractions of 10..40 digits on a sample of offsets), 'Z', '-00:00' and lenient variants (space / 't' separators and 'z', each also combined with 'Z') — full space on v4.local (thorough: all four local protocols and v2/v4 public), 500 (thorough 60000) sampled renderings on each other protocol; a catalogue of ~90 non-timestamp values (numbers, booleans, arrays, objects, empty string, near-miss date strings — impossible months/days/hours, ISO 8601 forms that RFC 3339 excludes — each in the future (2999) and in the past (2001)) plus random text; null; absent; a sample of the strict cases and the grid once more with check_claim(<the token's own value>) registered on the default parser, and every 61st case of any class with check_claim on ANOTHER claim that the token satisfies (the time checks must still all apply); every 29th case once more with the payload spelled as another implementation might (\\u escapes in the member names exp/nbf, \\u escapes inside the values, insignificant white space: same JSON value, same verdict); C12 additionally the 3x3 grid of (exp, nbf) in {past, future, absent} x 3 offsets. Plus a VIRTUAL-CLOCK sweep through the hook verif::set_now: 255 (thorough 3055) values of 'now' (year/leap-day boundaries, the last and first second of a minute / hour / day / month / year, 2^31/2^32 s, the i64-nanosecond limit 2262-04-11, up to year 8999, random, odd sub-second parts) x 27 distances from +-1 ns to +-950 years x sampled offsets, all with 9 fraction digits: exp accepted iff instant > now, nbf accepted iff instant < now (== now not decided). Plus clock-progress histories on all 8 protocols: a claim 1.5 s in the future is parsed, 2.6 s pass, and the SAME parser object (and a fresh one) must now give the opposite answer — also when the last parse before the pause was a REFUSED one (a clock reading kept from a failing parse must not judge the next). Oracle: instant known by construction; strict renderings and renderings with a ' ' separator (named in the property's quantifier) decide both ways, the other lenient renderings ('t', 'z') must merely never be accepted when out of window. distinct_nontrivial = distinct (protocol, outcome, class, instant, offset, fraction length, style) tuples";
